@@ -97,6 +97,11 @@ def replay_record(ctx, lc, rec, cached):
     exp = rec["st"]
     want = "".join(rec["child"])
     exhausted = out[0] == "exc" and out[1] == "TapeExhausted"
+    if getattr(shim, "deviated", False) and out[0] == "exc":
+        # the tape could not drive this implementation to an outcome: nothing to judge in this case
+        note = ctx.extra.setdefault("conformance_notes", {})
+        note[rec["move"] + ": tape not applicable (other draws)"] = note.get(rec["move"] + ": tape not applicable (other draws)", 0) + 1
+        return
     if out[0] == "timeout":
         ctx.violation("move-does-not-terminate", case)
         return
@@ -141,6 +146,8 @@ def replay_record(ctx, lc, rec, cached):
             conf = "fewer draws used than the specification"
         elif out[1].dmax != pdmax and not (rec["move"] == "swapRes" and rec["tape"][0][1] == rec["tape"][1][1]):
             conf = "delta-max not carried over"
+    if getattr(shim, "deviated", False):
+        conf = "draws the specification's transcription does not know"
     if conf:
         c = ctx.extra.setdefault("conformance_notes", {})
         c["%s: %s" % (rec["move"], conf)] = c.get("%s: %s" % (rec["move"], conf), 0) + 1
